@@ -184,9 +184,12 @@ def run(ctx: Ctx):
     for _ in range(ctx.scale(120, 4000)):
         sequence(ctx, runner)
     runner.finish()
+    L.special_stream(ctx, ctx.scale(120, 2500), "squeeth.", reject_intact=False)
 
 
 def replay(ctx: Ctx, case) -> bool:
+    if case.get("special"):
+        return L.special_replay(case, "squeeth.", reject_intact=False)
     world = L.World(G.parse_spec(case["spec"]), G.parse_env(case["env"]))
     nv0, prices = net_value(world)
     o = L.observe(world, G.parse_op(case["op"]), "replay")
